@@ -316,7 +316,13 @@ for combo in itertools.product([(sh,sr) for sh in XS for sr in XR],repeat=3):
 NX=8
 
 def write_crates(root, prefix, idxs_all, ncrates, rendered, header, cargo):
-    parts=[idxs_all[i::ncrates] for i in range(ncrates)]
+    # Generic definitions go to the last third of the crates, non-generic ones to the rest: a derive
+    # change that breaks trait bounds of generic definitions then only takes the generic crates out of
+    # the build (see the per-crate fallback in ./check), never the concrete definitions next to them.
+    ngen=max(1,ncrates//3)
+    gen_idx=[i for i in idxs_all if defs[i].generic]
+    con_idx=[i for i in idxs_all if not defs[i].generic]
+    parts=[con_idx[i::ncrates-ngen] for i in range(ncrates-ngen)]+[gen_idx[i::ngen] for i in range(ngen)]
     for k,idxs in enumerate(parts):
         dd=os.path.join(root,"%s%d"%(prefix,k),"src"); os.makedirs(dd,exist_ok=True)
         open(os.path.join(root,"%s%d"%(prefix,k),"Cargo.toml"),"w").write(cargo.replace("regd%d","%s%d"%(prefix,k)) if False else cargo_for(prefix,k))
